@@ -55,6 +55,14 @@ def make_data(d, n, layout, sep):
             if b == 2 and d == 1:
                 off[0] = -sep
             X[blob == b] += off
+    elif layout == "manyblob":  # sep = number of well separated blobs (on a grid in the first two coordinates)
+        k = int(sep)
+        blob = np.arange(n) % k
+        X = 0.3 * Z
+        side = int(np.ceil(np.sqrt(k)))
+        for b in range(k):
+            X[blob == b, 0] += 8.0 * (b % side)
+            X[blob == b, -1] += 8.0 * (b // side) if d > 1 else 8.0 * side * (b // side)
     elif layout == "collinear":
         X = np.outer(Z[:, 0], np.ones(d)) + 1e-9 * Z
     elif layout == "constcoord":
@@ -357,6 +365,54 @@ def run_refit(case):
     return res
 
 
+def run_scale15(case):
+    """Scale: many clusters (more leaves than any small data set produces) under every cap, and query batches of several thousand rows."""
+    from tempest.cluster import HierarchicalGaussianMixture
+
+    res = Res()
+    d, n, k = case["d"], case["n"], case["k"]
+    X, blob = make_data(d, n, "manyblob", k)
+    w = np.ones(len(X))
+    for cap in case["caps"]:
+        for norm in (True, False):
+            cc = dict(case, only=[cap, norm])
+            if case.get("only") and case["only"] != [cap, norm]:
+                continue
+            h = HierarchicalGaussianMixture(n_init=1, max_iterations=1000 if cap is None else cap - 1, min_points=None if cap is None else 4 * d, threshold_modifier=1.0, covariance_type="full", normalize=norm)
+            with OwnedRandom(23 + env.SEED):
+                with np.errstate(all="ignore"):
+                    try:
+                        h.fit(X, w.copy())
+                        lab = np.asarray(h.predict(X))
+                    except Exception as e:
+                        res.violate(f"scale:raises:{type(e).__name__}", f"{k} blobs, n={len(X)}, d={d}, cap={cap}: fit/predict raised {e!r}", cc)
+                        continue
+            res.evals += 1
+            K = h.n_clusters_
+            res.outcome(("scale", d, n, k, cap, norm, K), nontrivial=K >= 4)
+            if cap is not None and K > cap:
+                res.violate("scale:cap", f"{k} well separated blobs, n={len(X)}, d={d}: {K} clusters although the cap is {cap} (max_iterations={cap - 1})", cc)
+            if lab.min() < 0 or lab.max() >= K or np.asarray(h.labels_).shape != (len(X),):
+                res.violate("scale:labels", f"{k} blobs, cap={cap}: labels outside [0,{K})", cc)
+            mp = 2 * d if cap is None else 4 * d
+            sizes = np.bincount(np.asarray(h.labels_), minlength=K)
+            if K >= 2 and sizes.min() < mp:
+                res.violate("scale:min-points", f"{k} blobs, cap={cap}: a cluster of {sizes.min()} < {mp} points", cc)
+            # a batch of several thousand queries versus the same queries in small batches
+            Q = np.vstack([X + 0.01 * (j + 1) for j in range(case["tile"])])
+            with np.errstate(all="ignore"):
+                big = np.asarray(h.predict(Q))
+                small = np.concatenate([np.asarray(h.predict(Q[i:i + 257])) for i in range(0, len(Q), 257)])
+                pb = np.asarray(h.predict_proba(Q))
+                ps = np.vstack([np.asarray(h.predict_proba(Q[i:i + 257])) for i in range(0, len(Q), 257)])
+            res.evals += 2
+            if not np.array_equal(big, small) or not np.allclose(pb, ps, rtol=1e-10, atol=1e-12):
+                bad = int(np.sum(big != small))
+                res.violate("scale:predict-batch-consistency", f"{k} blobs, K={K}: {bad} of {len(Q)} queries get another label (or other probabilities) inside one batch of {len(Q)} rows than in batches of 257 rows", cc)
+    res.states += 1
+    return res
+
+
 def run_cforms(case):
     """The same data / sample weights (quantised so that every spelling carries them exactly) as another container, dtype or memory layout:
     same labels, same mixture, for both models, under the same random tape."""
@@ -410,7 +466,7 @@ def run_cforms(case):
     return res
 
 
-KINDS = {"cforms": run_cforms, "refit": run_refit, "gmm": run_gmm, "hgm": run_hgm}
+KINDS = {"scale": run_scale15, "cforms": run_cforms, "refit": run_refit, "gmm": run_gmm, "hgm": run_hgm}
 
 
 def plan(ctx):
@@ -443,3 +499,4 @@ def plan(ctx):
     ctx.explore("object-reuse", rf)
     cf = [{"kind": "cforms", "d": d, "n": n, "layout": lay, "sep": sep, "normalize": nm} for d in (1, 2, 3) for n in (12, 40) for lay, sep in (("2blob", 10), ("3blob", 3), ("1blob", 0), ("dup2", 0)) for nm in (True, False)]
     ctx.explore("data-and-weight-array-forms", cf)
+    ctx.explore("many-clusters-and-large-batches", [{"kind": "scale", "d": d_, "n": n_, "k": k_, "caps": [None, 2, 5, 10, 12, 20], "tile": t_} for d_, n_, k_, t_ in ((2, 990, 30, 6), (2, 600, 12, 9), (3, 800, 16, 7))])
